@@ -19,7 +19,7 @@ Inductive exit_kind :=
 | XSelf                        (* return self *)
 | XRawCopy                     (* r = cls.__new__(cls); r.__dict__.update(self.__dict__); return r *)
 | XSkipCopy (cleaned : bool)   (* __new__; _skip_validation = True; setattr(r, k, deepcopy(v)) for all; [delattr flag] *)
-| XStateDict                   (* {name: ... for declared fields if name in self.__dict__} *)
+| XStateDict                   (* {name: ... for declared fields if name in self.__dict__} [+ the internal `_none_fields`] *)
 | XOther.                      (* not recognised *)
 
 Definition site_table := list (pystr * list exit_kind).
@@ -59,7 +59,9 @@ Definition deepcopy_fn_ok (t : site_table) : bool :=
   forallb (fun k => match k with XSelf | XSkipCopy true => true | _ => false end) r &&
   existsb (fun k => match k with XSkipCopy true => true | _ => false end) r.
 
-(* [unp]: unpickling is the interpreter's default (no __setstate__/__reduce__ on Structure) *)
+(* [unp]: unpickling stores the state into a fresh __dict__ and otherwise sets typedpy's internal entries only
+   (the interpreter's default, or Structure.__setstate__ of the recognised shape: __dict__.update(state), a default
+   for `_none_fields`, `_instantiated` = True; no __reduce__ / __getnewargs__ on Structure) *)
 Definition pickle_fn_ok (t : site_table) (unp : bool) : bool :=
   unp && match site_row t fn_getstate with [XStateDict] => true | _ => false end.
 
